@@ -865,6 +865,27 @@ class Folder(object):
             return ExtInstance(d, args, kwargs)
         if d in ('collections.OrderedDict',):
             return dict(*args, **kwargs)
+        if d in ('collections.OrderedDict.fromkeys', 'builtins.dict.fromkeys',
+                 'dict.fromkeys') and len(args) in (1, 2) and not kwargs:
+            if isinstance(args[0], Opaque):
+                return Opaque('fromkeys')
+            try:
+                return dict.fromkeys(list(args[0]), *args[1:])
+            except TypeError as e:
+                raise FoldRaise('TypeError', e.args, n)
+        if d == 'itertools.groupby' and len(args) == 1 and not kwargs:
+            # groups of adjacent equal items (no key): (item, [items])
+            if isinstance(args[0], Opaque):
+                return Opaque('groupby')
+            out = []
+            for x in list(args[0]):
+                if isinstance(x, Opaque):
+                    return Opaque('groupby')
+                if out and out[-1][0] == x:
+                    out[-1][1].append(x)
+                else:
+                    out.append((x, [x]))
+            return out
 
         if d == 'collections.namedtuple':
             fields = args[1]
